@@ -293,6 +293,9 @@ class HostileCorpus(ch.DirectUnit):
         for h in HOSTILE:
             for p in POSITIONS:
                 out.append(p.replace('%s', quote_atom(h)))
+        for nm in ('ATOM_NIL', 'True', 'None', 'False', '__debug__'):
+            out += ["p([X|%s], X, [])." % nm, "p([_|%s]) :- %s = []." % (nm, nm), "p(f(%s), [%s, a|%s]) :- q(%s)." % (nm, nm, nm, nm),
+                    "p(X) :- X = [a|%s], q(%s, [])." % (nm, nm)]
         out += ["p(ATOM_NIL, []).", "p(True, False, None) :- q(True).", "p(__debug__).", "p(X) :- Y = atom, Z = query, q(Y, Z).",
                 "p(V_X, X) :- q(V_X).", "p(L1, Arg1, DoBreak, CutIf1) :- q(L1, Arg1, DoBreak, CutIf1, _)."]
         return out
